@@ -1197,3 +1197,61 @@ def r6(cx):
     if not ok:
         cx.violation(d, 'close:real', 'the real close must map EBADF to Ok(()) so that closing an unopened descriptor succeeds on '
                      'both systems', loc=hloc(hh))
+
+
+# ---------------------------------------------------------------------------------------
+# added after an independent seeded change: the simulated kernel's default signal actions
+POSIX_DEFAULT_ACTION = {
+    # POSIX <signal.h>: T/A = terminate (A with core), I = ignore, S = stop, C = continue; non-POSIX names: Linux/BSD signal(7)
+    'Abrt': 'core', 'Alrm': 'term', 'Bus': 'core', 'Chld': 'ignore', 'Cld': 'ignore', 'Cont': 'continue', 'Emt': 'term',
+    'Fpe': 'core', 'Hup': 'term', 'Ill': 'core', 'Info': None, 'Int': 'term', 'Io': 'term', 'Iot': 'core', 'Kill': 'term',
+    'Lost': 'term', 'Pipe': 'term', 'Poll': 'term', 'Prof': 'term', 'Pwr': 'term', 'Quit': 'core', 'Segv': 'core',
+    'Stkflt': 'term', 'Stop': 'stop', 'Sys': 'core', 'Term': 'term', 'Thr': None, 'Trap': 'core', 'Tstp': 'stop', 'Ttin': 'stop',
+    'Ttou': 'stop', 'Urg': 'ignore', 'Usr1': 'term', 'Usr2': 'term', 'Vtalrm': 'term', 'Winch': 'ignore', 'Xcpu': 'core',
+    'Xfsz': 'core', 'Rtmin': 'term', 'Rtmax': 'term',
+}
+
+
+@RS.rule('C19.R7', 'K-TABLE', 'the simulated kernel gives every signal the default action a real kernel gives it (ignore: CHLD URG WINCH; stop: STOP TSTP TTIN TTOU; continue: CONT; terminate otherwise)')
+def r7(cx):
+    F = cx.F
+    fn = 'yash_env::system::r#virtual::signal::SignalEffect::of'
+    NAME = 'yash_env::signal::Name'
+    h = F.hir_of(fn)
+    cx.fn(fn)
+    ms = [m for m in H.matches_in(h['body']) if (m.get('sty') or '').endswith('signal::Name')]
+    cx.require(len(ms) == 1, 'match over signal::Name not found in SignalEffect::of')
+    adt = [a for a in F.adts if a.endswith('signal::Name')]
+    cx.require(len(adt) == 1, 'signal::Name enum not found: %s' % adt)
+    loc = '%s:%s' % (h['file'], h['line'])
+    for v in F.adts[adt[0]]['variants']:
+        name = v['name']
+        val = ('variant', adt[0] + '::' + name, [('any',)] if v['fields'] else [])
+        i, arm = H.first_matching_arm(ms[0], val)
+        cx.require(i is not None, 'arm for %s not decidable: %s' % (name, arm))
+        body = H.peel(arm['body'])
+        got = None
+        d = body.get('p', {}).get('def') if body.get('k') == 'struct' else (body.get('def') if body.get('k') == 'path' else None)
+        short = (d or '').split('::')[-1]
+        if short == 'Terminate':
+            cd = [H.lit_value(f[1]) for f in body.get('fields', []) if f[0] == 'core_dump']
+            got = 'core' if cd and cd[0] else 'term'
+        elif short == 'None':
+            got = 'ignore'
+        elif short == 'Suspend':
+            got = 'stop'
+        elif short == 'Resume':
+            got = 'continue'
+        cx.cellcount(1)
+        if name not in POSIX_DEFAULT_ACTION:
+            cx.violation(fn, 'unclassified:%s' % name, 'signal %s has no default action in the reference table' % name, loc=loc)
+            continue
+        want = POSIX_DEFAULT_ACTION[name]
+        if want is None:
+            continue       # not in POSIX and platforms differ: not decided
+        # core vs plain termination is not observable by the shell scripts the property speaks about
+        norm = lambda x: 'term' if x == 'core' else x
+        if norm(got) != norm(want):
+            cx.violation(fn, 'default-action:%s' % name, 'the simulated default action of SIG%s is %s; a real kernel: %s (a script that sends '
+                         'itself that signal behaves differently on the two systems)' % (name.upper(), got, want), loc=loc)
+    cx.sample({'SignalEffect::of': 'compared with %d reference rows' % len(POSIX_DEFAULT_ACTION)})
